@@ -7,6 +7,10 @@
 //!          `pflow` (credit 10) `pacc` (accept+settle delivery 0..) `pd` (detach, not closed) `pdc` (closed)
 //!          `pde` (closed with error) `pe` `pee` (end with error) `pa2` (attach for an unknown link name)
 //!          `pfu` (flow for an unattached handle)
+//! Receiving link: `attr` attaches a receiver named "s" (credit mode Auto(2), auto-accept) instead of a sender; the
+//!   peer's `pa` then answers with a sender-role attach, `pt` is one small complete unsettled message for the link
+//!   (delivery-id/tag 0,1,..), `recv` a `Receiver::recv()` (results `recv=ok`, `recv=err:<variant>`); `det` `cls` `dropl`
+//!   `abortl` `pd` `pdc` `pde` as for the sender.
 //! One event per quiescence barrier.  Observed per step: the frames written (tokens of eng.rs) and the API
 //! calls that completed.
 use crate::c12::{peer_begin, peer_end, peer_open};
@@ -16,8 +20,10 @@ use crate::rng::Rng;
 use fe2o3_amqp::session::SessionHandle;
 use fe2o3_amqp::types::definitions::{self, AmqpError, ReceiverSettleMode, Role, SenderSettleMode};
 use fe2o3_amqp::types::messaging::{Accepted, DeliveryState, Source, Target};
-use fe2o3_amqp::types::performatives::{Attach, Detach, Disposition, Flow, Performative};
-use fe2o3_amqp::{Connection, Sender, Session};
+use fe2o3_amqp::link::receiver::CreditMode;
+use fe2o3_amqp::types::performatives::{Attach, Detach, Disposition, Flow, Performative, Transfer};
+use fe2o3_amqp::types::primitives::{Binary, Value};
+use fe2o3_amqp::{Connection, Receiver, Sender, Session};
 use tokio::task::JoinHandle;
 
 const PEER_HANDLE: u32 = 3;
@@ -65,6 +71,16 @@ fn peer_attach_receiver(name: &str) -> Performative {
         properties: None,
     })
 }
+fn peer_attach_sender(name: &str) -> Performative {
+    match peer_attach_receiver(name) {
+        Performative::Attach(mut a) => {
+            a.role = Role::Sender;
+            a.initial_delivery_count = Some(0);
+            Performative::Attach(a)
+        }
+        p => p,
+    }
+}
 fn peer_detach(closed: bool, err: bool) -> Performative {
     Performative::Detach(Detach {
         handle: PEER_HANDLE.into(),
@@ -85,6 +101,28 @@ fn peer_link_flow(handle: u32, credit: u32) -> Performative {
         drain: false,
         echo: false,
         properties: None,
+    })
+}
+
+/// the link under test: a sender (`att`) or a receiver (`attr`)
+enum Lk {
+    S(Sender),
+    R(Receiver),
+}
+
+fn peer_transfer(k: u32) -> Performative {
+    Performative::Transfer(Transfer {
+        handle: PEER_HANDLE.into(),
+        delivery_id: Some(k),
+        delivery_tag: Some(Binary::from(k.to_be_bytes().to_vec())),
+        message_format: Some(0),
+        settled: Some(false),
+        more: false,
+        rcv_settle_mode: None,
+        state: None,
+        resume: false,
+        aborted: false,
+        batchable: false,
     })
 }
 
@@ -111,9 +149,11 @@ pub fn run_script(script: &str) -> String {
         let _ = peer.drain().await;
         let mut begin_task: Option<JoinHandle<(fe2o3_amqp::connection::ConnectionHandle<()>, Result<SessionHandle<()>, String>)>> = None;
         let mut sess: Slot<SessionHandle<()>> = Slot::None;
-        let mut att_task: Option<JoinHandle<(SessionHandle<()>, Result<Sender, String>)>> = None;
-        let mut link: Slot<Sender> = Slot::None;
+        let mut att_task: Option<JoinHandle<(SessionHandle<()>, Result<Lk, String>)>> = None;
+        let mut link: Slot<Lk> = Slot::None;
         let mut delivered: u32 = 0;
+        let mut receiver_role = false; // the link under test is a receiver: the peer plays the sender
+        let mut transferred: u32 = 0;
         let mut out = String::new();
         for ev in &evs {
             match ev.as_str() {
@@ -132,37 +172,88 @@ pub fn run_script(script: &str) -> String {
                         if let Slot::Have(_) = sess {
                             if let Slot::Have(mut s) = std::mem::replace(&mut sess, Slot::None) {
                                 att_task = Some(tokio::spawn(async move {
-                                    let r = Sender::attach(&mut s, "s", "q").await.map_err(|e| variant(&format!("{:?}", e)));
+                                    let r = Sender::attach(&mut s, "s", "q").await.map(Lk::S).map_err(|e| variant(&format!("{:?}", e)));
                                     (s, r)
                                 }));
                             }
                         }
                     }
                 }
-                "send" | "det" | "cls" => {
-                    if let Slot::Have(_) = link {
-                        if let Slot::Have(mut l) = std::mem::replace(&mut link, Slot::None) {
-                            let what = ev.clone();
-                            link = Slot::Busy(tokio::spawn(async move {
-                                match what.as_str() {
-                                    "send" => {
-                                        let r = l.send("hello").await;
-                                        let s = match r {
-                                            Ok(o) => format!("send={}", variant(&format!("{:?}", o))),
-                                            Err(e) => format!("send=err:{}", variant(&format!("{:?}", e))),
-                                        };
-                                        (Some(l), s)
+                "attr" => {
+                    if att_task.is_none() && matches!(link, Slot::None) {
+                        if let Slot::Have(_) = sess {
+                            if let Slot::Have(mut s) = std::mem::replace(&mut sess, Slot::None) {
+                                receiver_role = true;
+                                att_task = Some(tokio::spawn(async move {
+                                    let r = Receiver::builder()
+                                        .name("s")
+                                        .source("q")
+                                        .credit_mode(CreditMode::Auto(2))
+                                        .auto_accept(true)
+                                        .attach(&mut s)
+                                        .await
+                                        .map(Lk::R)
+                                        .map_err(|e| variant(&format!("{:?}", e)));
+                                    (s, r)
+                                }));
+                            }
+                        }
+                    }
+                }
+                "send" | "recv" | "det" | "cls" => {
+                    let fits = match &link {
+                        Slot::Have(Lk::S(_)) => ev != "recv",
+                        Slot::Have(Lk::R(_)) => ev != "send",
+                        _ => false,
+                    };
+                    if fits {
+                        match std::mem::replace(&mut link, Slot::None) {
+                            Slot::Have(Lk::S(mut l)) => {
+                                let what = ev.clone();
+                                link = Slot::Busy(tokio::spawn(async move {
+                                    match what.as_str() {
+                                        "send" => {
+                                            let r = l.send("hello").await;
+                                            let s = match r {
+                                                Ok(o) => format!("send={}", variant(&format!("{:?}", o))),
+                                                Err(e) => format!("send=err:{}", variant(&format!("{:?}", e))),
+                                            };
+                                            (Some(Lk::S(l)), s)
+                                        }
+                                        "det" => match l.detach().await {
+                                            Ok(_d) => (None, "det=ok".to_string()),
+                                            Err((_d, e)) => (None, format!("det=err:{}", variant(&format!("{:?}", e)))),
+                                        },
+                                        _ => match l.close().await {
+                                            Ok(()) => (None, "cls=ok".to_string()),
+                                            Err(e) => (None, format!("cls=err:{}", variant(&format!("{:?}", e)))),
+                                        },
                                     }
-                                    "det" => match l.detach().await {
-                                        Ok(_d) => (None, "det=ok".to_string()),
-                                        Err((_d, e)) => (None, format!("det=err:{}", variant(&format!("{:?}", e)))),
-                                    },
-                                    _ => match l.close().await {
-                                        Ok(()) => (None, "cls=ok".to_string()),
-                                        Err(e) => (None, format!("cls=err:{}", variant(&format!("{:?}", e)))),
-                                    },
-                                }
-                            }));
+                                }));
+                            }
+                            Slot::Have(Lk::R(mut l)) => {
+                                let what = ev.clone();
+                                link = Slot::Busy(tokio::spawn(async move {
+                                    match what.as_str() {
+                                        "recv" => {
+                                            let s = match l.recv::<Value>().await {
+                                                Ok(_d) => "recv=ok".to_string(),
+                                                Err(e) => format!("recv=err:{}", variant(&format!("{:?}", e))),
+                                            };
+                                            (Some(Lk::R(l)), s)
+                                        }
+                                        "det" => match l.detach().await {
+                                            Ok(_d) => (None, "det=ok".to_string()),
+                                            Err((_d, e)) => (None, format!("det=err:{}", variant(&format!("{:?}", e)))),
+                                        },
+                                        _ => match l.close().await {
+                                            Ok(()) => (None, "cls=ok".to_string()),
+                                            Err(e) => (None, format!("cls=err:{}", variant(&format!("{:?}", e)))),
+                                        },
+                                    }
+                                }));
+                            }
+                            _ => {}
                         }
                     }
                 }
@@ -207,7 +298,19 @@ pub fn run_script(script: &str) -> String {
                     peer.write(&frame_bytes(0, &peer_begin(Some(0)), &[])).await;
                 }
                 "pa" => {
-                    peer.write(&frame_bytes(0, &peer_attach_receiver("s"), &[])).await;
+                    if receiver_role {
+                        peer.write(&frame_bytes(0, &peer_attach_sender("s"), &[])).await;
+                    } else {
+                        peer.write(&frame_bytes(0, &peer_attach_receiver("s"), &[])).await;
+                    }
+                }
+                "pt" => {
+                    let body = serde_amqp::to_vec(&fe2o3_amqp::types::messaging::message::__private::Serializable(
+                        &fe2o3_amqp::types::messaging::Message::builder().value(Value::String("m".into())).build(),
+                    ))
+                    .unwrap();
+                    peer.write(&frame_bytes(0, &peer_transfer(transferred), &body)).await;
+                    transferred += 1;
                 }
                 "pa2" => {
                     peer.write(&frame_bytes(0, &peer_attach_receiver("other"), &[])).await;
@@ -461,6 +564,16 @@ pub fn direct_oracle(script: &str, trace: &str) -> Vec<String> {
     let mut answered_detach = false;
     let mut peer_det_err = false;
     let mut det_err_reported = false;
+    // receiver-link scripts: the same link clauses, reported under their own class names (c13-r-...)
+    let rx = evs.contains(&"attr");
+    let lc = |name: &str| if rx { format!("c13-r-{}", name) } else { format!("c13-{}", name) };
+    // (receiver scripts) where the link handle is: 0 none yet, 1 with the application, 2 inside recv(), 3 inside
+    // detach()/close(), 4 gone
+    let mut rx_handle = 0u8;
+    // (receiver scripts) a peer detach that arrived before ours was written and still waits for its answer
+    let mut rx_unanswered: Option<usize> = None;
+    let mut rx_err_pending = false;
+    let local_or_peer_end = |upto: usize| evs[..=upto].iter().any(|x| matches!(*x, "end" | "ende" | "drops" | "aborts" | "pe" | "pee"));
     for (i, e) in evs.iter().enumerate() {
         let detaches_before_step = detaches;
         let st = steps.get(i).cloned().unwrap_or("");
@@ -491,12 +604,17 @@ pub fn direct_oracle(script: &str, trace: &str) -> Vec<String> {
                 "D" => {
                     detaches += 1;
                     if detaches > attaches {
-                        v.push(format!("c13-second-detach: more detaches than attaches (step {})", i));
+                        v.push(format!("{}: more detaches than attaches (step {})", lc("second-detach"), i));
                     }
                 }
                 "T" | "F" if t.contains('h') => {
                     if detaches >= attaches && attaches > 0 {
-                        v.push(format!("c13-after-detach: {} written for the handle after the detach (step {})", t, i));
+                        v.push(format!("{}: {} written for the handle after the detach (step {})", lc("after-detach"), t, i));
+                    }
+                }
+                "P" if rx => {
+                    if detaches >= attaches && attaches > 0 {
+                        v.push(format!("c13-r-after-detach: {} written for the link after the detach (step {})", t, i));
                     }
                 }
                 _ => {}
@@ -537,7 +655,7 @@ pub fn direct_oracle(script: &str, trace: &str) -> Vec<String> {
                     if t.starts_with('D') {
                         answered_detach = true;
                         if closing && !t.ends_with('c') && !t.contains("c" ) {
-                            v.push(format!("c13-detach-kind: the peer closed the link (step {}) but the answer {} (step {}) is a non-closing detach", at, t, i));
+                            v.push(format!("{}: the peer closed the link (step {}) but the answer {} (step {}) is a non-closing detach", lc("detach-kind"), at, t, i));
                         }
                     }
                 }
@@ -550,7 +668,7 @@ pub fn direct_oracle(script: &str, trace: &str) -> Vec<String> {
             }
         }
         // ... and the error it carried is what the caller of the next link operation gets
-        if peer_det_err && !det_err_reported {
+        if peer_det_err && !det_err_reported && !rx {
             for tok in st.split_whitespace() {
                 if tok.starts_with("send=") || tok.starts_with("det=") || tok.starts_with("cls=") {
                     det_err_reported = true;
@@ -562,6 +680,74 @@ pub fn direct_oracle(script: &str, trace: &str) -> Vec<String> {
         }
         if *e == "pde" && peer_attached && attaches > detaches_before_step {
             peer_det_err = true;
+        }
+        if rx {
+            let toks: Vec<&str> = st.split_whitespace().collect();
+            let result = |p: &str| toks.iter().find(|t| t.starts_with(p)).cloned();
+            // the session is not brought down by the link
+            if wire.iter().any(|t| t.starts_with('E')) && !local_or_peer_end(i) {
+                v.push(format!("c13-r-session-torn-down: the session was ended at step {} ({}) although neither side ended it", i, st));
+            }
+            // which operation runs in this step: one that starts now, or a pending one that completes now
+            let mut ran: Option<&str> = None;
+            match *e {
+                "recv" | "det" | "cls" if rx_handle == 1 => {
+                    ran = Some(*e);
+                    rx_handle = if *e == "recv" { 2 } else { 3 };
+                }
+                "dropl" if rx_handle == 1 => {
+                    ran = Some("drop");
+                    rx_handle = 4;
+                }
+                "abortl" if rx_handle == 2 || rx_handle == 3 => {
+                    ran = Some("drop");
+                    rx_handle = 4;
+                }
+                _ => {}
+            }
+            // a peer detach that arrives before ours has been written needs an answer
+            if matches!(*e, "pd" | "pdc" | "pde") && peer_attached && attaches > detaches_before_step && ends == 0 && rx_unanswered.is_none() {
+                rx_unanswered = Some(i);
+            }
+            if *e == "pde" && peer_attached && attaches > 0 && ends == 0 && rx_handle != 4 {
+                rx_err_pending = true;
+            }
+            if rx_handle == 2 && result("recv=").is_some() {
+                ran = ran.or(Some("recv"));
+            }
+            if detaches > detaches_before_step {
+                rx_unanswered = None;
+            }
+            if ends > 0 {
+                // nothing can be written on the channel after the end
+                rx_unanswered = None;
+            }
+            if let (Some(at), Some(op)) = (rx_unanswered, ran) {
+                if result("recv=ok").is_some() {
+                    v.push(format!("c13-r-detach-behind-transfer: the peer's detach (step {}) is not answered by the application's next operation: recv() (step {}) returned a delivery queued before it", at, i));
+                } else {
+                    v.push(format!("c13-r-detach-unanswered: the peer's detach (step {}) is not answered by the application's next operation {} (step {})", at, op, i));
+                }
+                rx_unanswered = None;
+            }
+            // the error carried by the peer's detach is what the first call that ends otherwise than with a delivery reports
+            if rx_err_pending && ends == 0 {
+                if let Some(tok) = toks.iter().find(|t| (t.starts_with("recv=") && **t != "recv=ok") || t.starts_with("det=") || t.starts_with("cls=")) {
+                    rx_err_pending = false;
+                    if !tok.contains("RemoteClosedWithError") {
+                        v.push(format!("c13-r-peer-detach-error-lost: the peer closed the link with an error but the call returned {}", tok));
+                    }
+                }
+            }
+            if result("att=ok").is_some() {
+                rx_handle = 1;
+            }
+            if result("recv=").is_some() && rx_handle == 2 {
+                rx_handle = 1;
+            }
+            if (result("det=").is_some() || result("cls=").is_some()) && rx_handle == 3 {
+                rx_handle = 4;
+            }
         }
         // the caller gets the peer's error
         if (*e == "pee") && st.split_whitespace().any(|t| t.starts_with("end=") && !t.contains("RemoteEndedWithError")) {
@@ -932,6 +1118,388 @@ pub fn run_link_model(seed: u64, n: u64, thorough: bool, corpus: &[String], dir:
             out.nontrivial(&line);
         }
         for v in direct_oracle(&full, &format!("B0 ;  begin=ok ; A0h0s ; {}", t)) {
+            let class = v.split(':').next().unwrap_or("?").to_string();
+            out.violation(&class, &format!("{} | script `{}` -> {}", v, full, t), &line);
+        }
+        out.case(&line, &t);
+    }
+    out.finish(dir);
+}
+
+// ------------------------------------------------------------------------------------------
+// session + receiver link scripts, direct oracle only (sub `lifex`): the receiver-side counterpart of `life`,
+// including session end/drop, peer end, and the combinations left out of `lifer`
+// ------------------------------------------------------------------------------------------
+
+pub fn gen_script_rx(r: &mut Rng, max_len: u64) -> String {
+    let mut evs: Vec<&str> = Vec::new();
+    let (mut begun, mut pb, mut att, mut pa, mut pdet, mut pend) = (false, false, false, false, false, false);
+    let mut sess_free = false;
+    let mut link_free = false;
+    let mut recv_waiting = false; // a recv() is pending with nothing queued
+    let mut queued: u32 = 0;
+    let mut credit: u32 = 0;
+    let n = r.range(3, max_len + 6);
+    let mut guard = 0;
+    while (evs.len() as u64) < n && guard < 400 {
+        guard += 1;
+        let e: &str = if !begun {
+            "begin"
+        } else if !pb && r.below(5) != 0 {
+            "pb"
+        } else if pb && !att && sess_free && r.below(4) != 0 {
+            "attr"
+        } else if att && !pa && !pend && r.below(4) != 0 {
+            "pa"
+        } else {
+            match r.below(24) {
+                0..=3 => "recv",
+                4..=7 => "pt",
+                8..=9 => "det",
+                10..=11 => "cls",
+                12..=13 => "end",
+                14 => "ende",
+                15 => "pdc",
+                16 => "pe",
+                17 => "pd",
+                18 => "pde",
+                19 => "pee",
+                20 => "dropl",
+                21 => "drops",
+                22 => "abortl",
+                _ => "aborts",
+            }
+        };
+        let legal = match e {
+            "pb" => begun && !pb,
+            "attr" => pb && !att && sess_free,
+            "pa" => att && !pa && !pend,
+            "pt" => pa && !pdet && !pend && credit > 0,
+            "pd" | "pdc" | "pde" => pa && !pdet && !pend,
+            "pe" | "pee" => pb && !pend,
+            "recv" | "det" | "cls" | "dropl" => link_free,
+            "abortl" => pa && !link_free && att,
+            "end" | "ende" | "drops" => sess_free,
+            "aborts" => pb && !sess_free,
+            _ => true,
+        };
+        if !legal {
+            continue;
+        }
+        match e {
+            "begin" => begun = true,
+            "pb" => {
+                pb = true;
+                sess_free = true;
+            }
+            "attr" => {
+                att = true;
+                sess_free = false;
+            }
+            "pa" => {
+                pa = true;
+                sess_free = true;
+                link_free = true;
+                credit = 2;
+            }
+            "pt" => {
+                credit -= 1;
+                if recv_waiting {
+                    recv_waiting = false;
+                    link_free = true;
+                    credit = 2;
+                } else {
+                    queued += 1;
+                }
+            }
+            "recv" => {
+                if queued > 0 {
+                    queued -= 1;
+                    credit = 2 - queued.min(2);
+                } else if pdet {
+                    // answered at once, the handle stays with the application
+                } else {
+                    recv_waiting = true;
+                    link_free = false;
+                }
+            }
+            "det" | "cls" | "dropl" | "abortl" => {
+                link_free = false;
+                recv_waiting = false;
+            }
+            "pd" | "pdc" | "pde" => {
+                pdet = true;
+                if recv_waiting {
+                    recv_waiting = false;
+                    link_free = true;
+                }
+            }
+            "end" | "ende" | "drops" | "aborts" => sess_free = false,
+            "pe" | "pee" => pend = true,
+            _ => {}
+        }
+        evs.push(e);
+    }
+    evs.join(" ; ")
+}
+
+pub fn run_rx(seed: u64, n: u64, thorough: bool, corpus: &[String], dir: &str) {
+    crate::codec::quiet_panics();
+    let mut out = Outputs::new(dir);
+    let mut r = Rng::new(seed);
+    let mut scripts: Vec<String> = Vec::new();
+    for l in corpus {
+        if let Some(s) = l.strip_prefix("lifex ") {
+            out.count("corpus_cases");
+            scripts.push(s.to_string());
+        }
+    }
+    for _ in 0..n {
+        scripts.push(gen_script_rx(&mut r, if thorough { 10 } else { 7 }));
+    }
+    for s in scripts {
+        let line = format!("lifex {}", s);
+        let t = match std::panic::catch_unwind(|| run_script(&s)) {
+            Ok(t) => t,
+            Err(_) => "HARNESS-PANIC".to_string(),
+        };
+        for ev in s.split(';') {
+            out.count(&format!("ev_{}", ev.trim()));
+        }
+        if t.contains("att=ok") && (t.contains("det=") || t.contains("cls=") || t.contains("end=") || t.contains("recv=")) {
+            out.nontrivial(&line);
+        }
+        for v in direct_oracle(&s, &t) {
+            let class = v.split(':').next().unwrap_or("?").to_string();
+            out.violation(&class, &format!("{} | script `{}` -> {}", v, s, t), &line);
+        }
+        out.case(&line, &t);
+    }
+    out.finish(dir);
+}
+
+// ------------------------------------------------------------------------------------------
+// receiver link scripts compared with the Coq model Link/RecvLife.v (tag `lifer`)
+// ------------------------------------------------------------------------------------------
+
+#[derive(Clone, Copy, PartialEq, Debug)]
+enum RPhase {
+    AttSent,
+    Idle,
+    RecvWait,
+    DetSent,
+    ClsSent,
+    Reattach,
+    ReCls,
+    Detached,
+    Dropped,
+    Gone,
+    SessEnded,
+}
+
+/// what the generator has to know about a receiver-link script so far: where the handle is, what the link has not
+/// looked at yet, what the peer may still do
+#[derive(Clone, Debug)]
+struct RSim {
+    phase: RPhase,
+    /// transfers the link has not looked at
+    q: usize,
+    /// a peer detach the link has not looked at
+    rd: Option<&'static str>,
+    /// the peer's view of the link credit
+    credit: usize,
+    /// the peer has sent its detach for the current attach
+    peer_detached: bool,
+    /// the detach exchanged by recv() was a closing one
+    closing: bool,
+}
+
+impl RSim {
+    fn new() -> Self {
+        RSim { phase: RPhase::AttSent, q: 0, rd: None, credit: 0, peer_detached: false, closing: false }
+    }
+    fn handle_free(&self) -> bool {
+        matches!(self.phase, RPhase::Idle | RPhase::Detached)
+    }
+    fn handle_busy(&self) -> bool {
+        matches!(self.phase, RPhase::RecvWait | RPhase::DetSent | RPhase::ClsSent | RPhase::Reattach | RPhase::ReCls)
+    }
+    /// the peer stays within the protocol; the combinations whose outcome depends on the order in which the session
+    /// engine's select! polls the link's two channels are left out: detach() meeting an unseen closing peer detach,
+    /// close() meeting an unseen non-closing one (both re-attach while the local detach is still in the outgoing channel)
+    fn legal(&self, e: &str) -> bool {
+        use RPhase::*;
+        match e {
+            "pa" => matches!(self.phase, AttSent | Reattach),
+            "pt" => !matches!(self.phase, AttSent | Reattach | ReCls | SessEnded) && !self.peer_detached && self.credit > 0,
+            "pd" | "pdc" | "pde" => !matches!(self.phase, AttSent | Reattach | SessEnded) && !self.peer_detached,
+            "det" => !(self.phase == Idle && matches!(self.rd, Some("pdc") | Some("pde"))),
+            "cls" => !(self.phase == Idle && self.rd == Some("pd")),
+            _ => true,
+        }
+    }
+    /// local events that do something
+    fn useful(&self, e: &str) -> bool {
+        match e {
+            "recv" | "det" | "cls" | "dropl" => self.handle_free(),
+            "abortl" => self.handle_busy(),
+            _ => true,
+        }
+    }
+    fn step(&mut self, e: &str) {
+        use RPhase::*;
+        let kind: Option<&'static str> = match e {
+            "pd" => Some("pd"),
+            "pdc" => Some("pdc"),
+            "pde" => Some("pde"),
+            _ => None,
+        };
+        match (self.phase, e) {
+            (AttSent, "pa") => {
+                self.phase = Idle;
+                self.credit = 2;
+            }
+            (Reattach, "pa") => {
+                self.phase = ReCls;
+                self.peer_detached = false;
+                self.credit = 0;
+            }
+            (SessEnded, _) => {}
+            (Gone, _) => {
+                if kind.is_some() {
+                    self.peer_detached = true;
+                }
+            }
+            (_, "pt") => {
+                self.credit -= 1;
+                match self.phase {
+                    Idle => self.q += 1,
+                    RecvWait => {
+                        self.phase = Idle;
+                        self.credit = 2;
+                    }
+                    Dropped => self.phase = SessEnded,
+                    _ => {}
+                }
+            }
+            (_, "pd") | (_, "pdc") | (_, "pde") => {
+                self.peer_detached = true;
+                match self.phase {
+                    Idle => self.rd = kind,
+                    RecvWait => {
+                        self.phase = Detached;
+                        self.closing = e != "pd";
+                    }
+                    DetSent => self.phase = if e == "pd" { Gone } else { Reattach },
+                    ClsSent | ReCls | Dropped => self.phase = Gone,
+                    _ => {}
+                }
+            }
+            (Idle, "recv") => {
+                if self.q > 0 {
+                    self.q -= 1;
+                    self.credit = 2 - self.q;
+                } else if let Some(k) = self.rd.take() {
+                    self.closing = k != "pd";
+                    self.phase = Detached;
+                } else {
+                    self.phase = RecvWait;
+                }
+            }
+            (Idle, "det") => self.phase = if self.rd.is_some() { Gone } else { DetSent },
+            (Idle, "cls") => self.phase = if self.rd.is_some() { Gone } else { ClsSent },
+            (Idle, "dropl") => self.phase = if self.rd.is_some() { Gone } else { Dropped },
+            (Detached, "det") | (Detached, "dropl") => self.phase = Gone,
+            (Detached, "cls") => self.phase = if self.closing { Gone } else { Reattach },
+            (RecvWait, "abortl") | (DetSent, "abortl") | (ClsSent, "abortl") => self.phase = Dropped,
+            (Reattach, "abortl") | (ReCls, "abortl") => self.phase = Gone,
+            _ => {}
+        }
+    }
+}
+
+fn recv_sim(cur: &[&str]) -> RSim {
+    let mut s = RSim::new();
+    for e in cur {
+        s.step(e);
+    }
+    s
+}
+
+/// legality of the next event of a receiver-link script given the events so far (see [RSim::legal])
+fn recv_link_legal(cur: &[&str], e: &str) -> bool {
+    recv_sim(cur).legal(e)
+}
+
+pub fn run_recv_link_model(seed: u64, n: u64, thorough: bool, corpus: &[String], dir: &str) {
+    crate::codec::quiet_panics();
+    let mut out = Outputs::new(dir);
+    let mut r = Rng::new(seed);
+    let mut scripts: Vec<String> = Vec::new();
+    for l in corpus {
+        if let Some(s) = l.strip_prefix("lifer ") {
+            out.count("corpus_cases");
+            scripts.push(s.to_string());
+        }
+    }
+    let alphabet = ["pa", "pt", "recv", "det", "cls", "dropl", "abortl", "pd", "pdc", "pde"];
+    // every legal script of up to `full` events after `pa`; beyond that, up to `deep` events, only with local events that
+    // find the handle in the state they need (the others do nothing)
+    let (full, deep) = if thorough { (5, 7) } else { (4, 5) };
+    let mut stack: Vec<(Vec<&str>, bool)> = vec![(vec!["pa"], true)];
+    while let Some((cur, all)) = stack.pop() {
+        scripts.push(cur.join(" ; "));
+        let len = cur.len() - 1;
+        if len < deep {
+            let sim = recv_sim(&cur);
+            for e in alphabet.iter() {
+                if !sim.legal(e) {
+                    continue;
+                }
+                let useful = sim.useful(e);
+                if useful || (all && len < full) {
+                    let mut nx = cur.clone();
+                    nx.push(e);
+                    stack.push((nx, all && (len < full)));
+                }
+            }
+        }
+    }
+    out.add("enumerated_scripts", scripts.len() as u64);
+    for _ in 0..n {
+        let mut cur: Vec<&str> = vec!["pa"];
+        let len = r.range(3, 12);
+        let mut guard = 0;
+        while (cur.len() as u64) < len && guard < 100 {
+            guard += 1;
+            let e = match r.below(16) {
+                0..=2 => "recv",
+                3..=5 => "pt",
+                _ => *r.pick(&alphabet),
+            };
+            // mostly events that do something
+            if recv_link_legal(&cur, e) && (recv_sim(&cur).useful(e) || r.below(6) == 0) {
+                cur.push(e);
+            }
+        }
+        scripts.push(cur.join(" ; "));
+    }
+    for s in scripts {
+        let line = format!("lifer {}", s);
+        let full = format!("begin ; pb ; attr ; {}", s);
+        let t = match std::panic::catch_unwind(|| run_script(&full)) {
+            Ok(t) => t,
+            Err(_) => "HARNESS-PANIC".to_string(),
+        };
+        // the prelude's three steps are not part of the model's trace
+        let t = t.strip_prefix("B0 ;  begin=ok ; A0h0r ; ").map(|x| x.to_string()).unwrap_or(t);
+        for ev in s.split(';') {
+            out.count(&format!("ev_{}", ev.trim()));
+        }
+        if t.contains("recv=") || t.contains("det=") || t.contains("cls=") {
+            out.nontrivial(&line);
+        }
+        for v in direct_oracle(&full, &format!("B0 ;  begin=ok ; A0h0r ; {}", t)) {
             let class = v.split(':').next().unwrap_or("?").to_string();
             out.violation(&class, &format!("{} | script `{}` -> {}", v, full, t), &line);
         }
